@@ -25,9 +25,11 @@ def main():
     ov = overlay_from_patch(patch)
     base = {}
     out = {}
+    from vsa.__main__ import parse_tree
+    r0, r1 = parse_tree(), parse_tree(overlay=ov)
     for p in props:
-        b = run_check(p, 'quick', write=False, quiet=True)
-        c = run_check(p, 'quick', overlay=ov, write=False, quiet=True)
+        b = run_check(p, 'quick', write=False, quiet=True, repo=r0)
+        c = run_check(p, 'quick', write=False, quiet=True, repo=r1)
         bk = {v.key() for v in b.violations}
         new = [v for v in c.violations if v.key() not in bk]
         if c.status == 2:
